@@ -92,6 +92,9 @@ func ErrFor(class string) error {
 		return engine.NewCommandError(command.NewErrMachine(machine.NewErrMetadataOverride("k")))
 	case "NOT_FOUND":
 		return engine.NewCommandError(command.NewErrRevertTransactionNotFound())
+	case "PANIC":
+		// the ledger underneath blows up (a nil map, a failed assertion): not an error value at all
+		panic("injected panic under a ledger call")
 	case "META_NOT_FOUND":
 		return engine.NewCommandError(errMetaNotFound{})
 	default:
